@@ -20,27 +20,39 @@ sys.path.insert(0, os.path.dirname(os.path.abspath(__file__)))
 import vlib
 from vlib import SplitMix
 
-NET_V = ['Net/Chunk.v', 'Net/ChunkFacts.v', 'Net/Responder.v', 'Net/ResponderFacts.v']
+NET_V = ['Net/Chunk.v', 'Net/ChunkFacts.v', 'Net/Responder.v', 'Net/ResponderFacts.v', 'Net/LockstepFacts.v']
 OVERLAY = os.path.join(vlib.VERIF, 'harness', 'overlay')
 
 
 # ------------------------------------------------------------------------------ builds
+EXTRA_DEPS = {'Net/LockstepFacts.v': ['Stream/ReaderFacts.vo']}
+
+
 def ensure_net_vo():
-    """compile coq/Net/*.v (in dependency order) when a .vo is missing or stale; returns list of errors"""
+    """compile coq/Net/*.v (in dependency order) when a .vo is missing or stale; returns list of errors.
+    The rest of the development is brought up to date first (LockstepFacts imports the stream model)."""
     errors = []
+    vlib.regen()
+    vlib.coq_build()
     with vlib.Lock('coq'):
         newest_dep = 0.0
         for f in NET_V:
             src = os.path.join(vlib.COQ, f)
             vo = src[:-2] + '.vo'
-            stale = (not os.path.exists(vo)) or os.path.getmtime(vo) < os.path.getmtime(src) or os.path.getmtime(vo) < newest_dep
+            dep = newest_dep
+            for d in EXTRA_DEPS.get(f, []):
+                dp = os.path.join(vlib.COQ, d)
+                if os.path.exists(dp):
+                    dep = max(dep, os.path.getmtime(dp))
+            stale = (not os.path.exists(vo)) or os.path.getmtime(vo) < os.path.getmtime(src) or os.path.getmtime(vo) < dep
             if stale:
                 rc, out = vlib.sh(f'timeout 900 coqc -R . Stef {f}', cwd=vlib.COQ, timeout=960)
                 if rc != 0:
                     errors.append(f'{f} does not check: ' + (out.strip().splitlines()[-1] if out.strip() else 'coqc failed'))
                     open(os.path.join(vlib.BUILD, 'coq_net.log'), 'a').write(out)
                     break
-            newest_dep = max(newest_dep, os.path.getmtime(vo)) if os.path.exists(vo) else newest_dep
+            if os.path.exists(vo) and f != 'Net/LockstepFacts.v':
+                newest_dep = max(newest_dep, os.path.getmtime(vo))
     return errors
 
 
@@ -173,32 +185,38 @@ def c15_oracle(items, reads, obs_line, drained_expected):
 def gen_c15(rng, tier):
     cases = []     # (line, items, reads, kind, drained)
     stats = collections.Counter()
-    # (a) exhaustive small space
-    lens = (0, 1, 3)
-    maxchunks = 3 if tier == 'quick' else 4
-    splits = {L: compositions(L, 3) for L in lens}
-    per_chunk = [(L, sp) for L in lens for sp in splits[L]]
-    def chunk_seqs(n):
-        if n == 0:
-            yield []
-            return
-        for rest in chunk_seqs(n - 1):
-            for pc in per_chunk:
-                yield rest + [pc]
-    for n in range(0, maxchunks + 1):
-        for seq in chunk_seqs(n):
-            g = ByteGen()
-            items = []
-            for L, sp in seq:
-                c = g.take(L)
-                for j, (a, b) in enumerate(sp):
-                    items.append((c[a:b], j == len(sp) - 1))
-            total = sum(L for L, _ in seq)
-            for rs in (1, 2, 3, 7, 65536):
-                nreads = (total + rs - 1) // rs + n + 3
-                reads = [rs] * nreads
-                cases.append((c15_case_line(items, reads), items, reads, 'exhaustive', True))
-                stats[f'exhaustive_chunks_{n}'] += 1
+    # (a) exhaustive small spaces: (chunk lengths, max chunks, max messages per chunk)
+    spaces = [((0, 1, 3), 3, 3)]
+    if tier != 'quick':
+        spaces += [((0, 1, 3), 4, 2), ((0, 1, 2, 3), 3, 3)]
+    seen_lines = set()
+    for lens, maxchunks, maxparts in spaces:
+        per_chunk = [(L, sp) for L in lens for sp in compositions(L, maxparts)]
+        def chunk_seqs(n):
+            if n == 0:
+                yield []
+                return
+            for rest in chunk_seqs(n - 1):
+                for pc in per_chunk:
+                    yield rest + [pc]
+        for n in range(0, maxchunks + 1):
+            for seq in chunk_seqs(n):
+                g = ByteGen()
+                items = []
+                for L, sp in seq:
+                    c = g.take(L)
+                    for j, (a, b) in enumerate(sp):
+                        items.append((c[a:b], j == len(sp) - 1))
+                total = sum(L for L, _ in seq)
+                for rs in (1, 2, 3, 7, 65536):
+                    nreads = (total + rs - 1) // rs + n + 3
+                    reads = [rs] * nreads
+                    line = c15_case_line(items, reads)
+                    if line in seen_lines:
+                        continue
+                    seen_lines.add(line)
+                    cases.append((line, items, reads, 'exhaustive', True))
+                    stats[f'exhaustive_chunks_{n}'] += 1
     # (b) random larger cases: sizes around the read buffer, empty chunks, error items, partial tail, mixed read sizes
     nrand = 60 if tier == 'quick' else 600
     for i in range(nrand):
@@ -267,6 +285,28 @@ def gen_c15(rng, tier):
     return cases, wr, stats
 
 
+def load_c15_corpus():
+    """corpus/C15/cases.txt: former failing / hand-picked cases, run first"""
+    cases, wr = [], []
+    path = os.path.join(vlib.VERIF, 'corpus', 'C15', 'cases.txt')
+    if not os.path.exists(path):
+        return cases, wr
+    for line in open(path):
+        line = line.strip()
+        if not line or line.startswith('#'):
+            continue
+        left, right = line.split('|', 1)
+        toks, reads = left.split(), [int(x) for x in right.split()]
+        unhex = lambda h: b'' if h == '-' else bytes.fromhex(h)
+        if toks[0] == 'asm':
+            items = [None if t == 'e' else (unhex(t.split(':')[1]), t.split(':')[2] == '1') for t in toks[1:]]
+            cases.append((c15_case_line(items, reads), items, reads, 'corpus', False))
+        elif toks[0] == 'wr':
+            cs = [(unhex(t.split(':')[0]), unhex(t.split(':')[1])) for t in toks[1:]]
+            wr.append(('wr ' + ' '.join(toks[1:]) + ' | ' + ' '.join(map(str, reads)), cs, reads))
+    return cases, wr
+
+
 def run_c15(rng, tier, verdict, counters, samples, seed):
     ok_go, log_go, gobin = build_go_test('grpc', 'go/grpc', '.', 'go/grpc/zz_verif_chunk_test.go', 'grpc_chunk_test.go')
     if not ok_go:
@@ -274,6 +314,10 @@ def run_c15(rng, tier, verdict, counters, samples, seed):
                           'harness does not build against the working tree', no_input=True)
         return 0, 0, {}
     cases, wr, stats = gen_c15(rng, tier)
+    corpus_cases, corpus_wr = load_c15_corpus()
+    cases = corpus_cases + cases
+    wr = corpus_wr + wr
+    stats['corpus'] = len(corpus_cases) + len(corpus_wr)
     lines = [c[0] for c in cases] + [w[0] for w in wr]
     fin, fout = os.path.join(vlib.BUILD, 'c15_in.txt'), os.path.join(vlib.BUILD, 'c15_out.txt')
     open(fin, 'w').write('\n'.join(lines) + '\n')
@@ -300,7 +344,7 @@ def run_c15(rng, tier, verdict, counters, samples, seed):
         if bad:
             counters['oracle:' + bad[0]] += 1
             verdict.violation(dict(seed=seed, case=line[:4000], finding=list(map(str, bad)), implementation=g[:2000], model=m[:2000], how_to_run=how),
-                              f'C15 {kind}: {bad[0]} — the bytes read are not the chunks sent / not chunk-aligned')
+                              f'C15 {kind}: {bad[0]} {" ".join(map(str, bad[1:]))[:120]}')
             continue
         if g != m:
             counters['correspondence'] += 1
@@ -464,6 +508,8 @@ def c16_oracle(case, res):
             want = [ids[i] for i in consumed if outs[i] == 'p']
             if sent_ranges != want[:len(sent_ranges)]:
                 return ('bad-range-not-exact-or-repeated', k, rs, want)
+            if any(b > ack for _, b in rs):
+                return ('range-beyond-ack-id', k, ack, rs)
             # soundness: every id up to ack belongs to a batch already handed to the consumer and
             # accepted, or lies in a range reported by now
             hi = ids[consumed[-1]][1] if consumed else 0
@@ -543,6 +589,21 @@ def run_c16(rng, tier, verdict, counters, samples, seed):
                           'channel capacity of the model differs from the code (or cannot be read)', no_input=True)
     extra['channel_capacity'] = int(capout[0]) if capout else None
     cases = gen_c16(rng, tier)
+    # corpus: the schedule of the repaired defect D10 runs first, repeated (the branch is chosen by the Go runtime)
+    corpus = json.load(open(os.path.join(vlib.VERIF, 'corpus', 'C16', 'd10.json')))
+    reps = 40 if tier == 'quick' else 400
+    cases = [dict(corpus['script'], id=f'corpus-d10-{i}', family='corpus_d10') for i in range(reps)] + cases
+    # ... and on the model: the traces recorded from the pinned code are traces of cfg_pinned and NOT of cfg_current
+    clines = [f'lts pinned {t}' for t in corpus['pinned_traces']] + [f'lts current {t}' for t in corpus['pinned_traces']] + \
+             [f'lts current {t}' for t in corpus['current_traces']]
+    _, co = vlib.run_lines(model, clines)
+    np_ = len(corpus['pinned_traces'])
+    want = ['accepted'] * np_ + ['rejected'] + ['rejected'] * (np_ - 1) + ['accepted'] * len(corpus['current_traces'])
+    # the second recorded trace differs from the repaired behaviour only in the range start (5-10 vs 6-10): also rejected
+    if len(co) != len(clines) or any(not o.startswith(w) for o, w in zip(co, want)):
+        verdict.violation(dict(broken='corpus C16/d10.json: model verdicts on the recorded traces changed', lines=clines, got=co, want=want),
+                          'recorded traces of defect D10 are no longer told apart by the model', no_input=True)
+    extra['corpus_traces_checked'] = len(clines)
     fin, fout = os.path.join(vlib.BUILD, 'c16_in.jsonl'), os.path.join(vlib.BUILD, 'c16_out.jsonl')
     open(fin, 'w').write('\n'.join(json.dumps(c) for c in cases) + '\n')
     if os.path.exists(fout):
@@ -620,7 +681,7 @@ def run_c16(rng, tier, verdict, counters, samples, seed):
                 verdict.violation(dict(broken='model exploration: cfg_pinned no longer shows the recorded defect', out=o[:400]),
                                   'refutation witnesses no longer reproduce', no_input=True)
     extra.update(states=states, transitions=trans, traces_validated_against_impl=accepted)
-    for fam in ('race', 'random', 'channel_full', 'plain'):
+    for fam in ('corpus_d10', 'race', 'random', 'channel_full', 'plain'):
         k = next((i for i, c in enumerate(cases) if c['family'] == fam), None)
         if k is not None:
             samples.append(dict(script=dict(batches=cases[k]['batches'], steps=[s['op'] + (':' + str(s.get('k', s.get('ms'))) if ('k' in s or 'ms' in s) else '') for s in cases[k]['steps']],
@@ -700,7 +761,7 @@ def main():
         distribution=dict(stats), outcome_counts=dict(counters), samples=samples,
         exhaustive=(prop == 'C15')))
     if prop == 'C15':
-        coverage['exhaustive_space'] = 'chunks of length 0/1/3, up to ' + ('3' if tier == 'quick' else '4') + ' chunks, every split into <= 3 messages, read sizes 1/2/3/7/65536 (random larger cases are sampled)'
+        coverage['exhaustive_space'] = ('chunks of length 0/1/3, up to 3 chunks, every split into <= 3 messages (empty pieces included), read sizes 1/2/3/7/65536' + ('' if tier == 'quick' else '; plus up to 4 chunks with <= 2 messages each and lengths 0/1/2/3 with up to 3 chunks') + '; random larger cases are sampled')
     coverage.update(extra)
     coverage['violations_not_written_as_replay'] = verdict.suppressed
     rc = verdict.finish()
